@@ -23,7 +23,7 @@ RULE = ("cases = (policy, loop order of depth 1-3, tensors with rank lists/shape
         "positions (9 next to 10, 2 next to 11, 100; also exhaustively for filter / combine / next-use), ranks declared "
         "format U or C (or the key omitted), every binding type x cbits/pbits/line-size combination (elements per line), "
         "tensors whose shape is only estimated (a pinned binding is then a predicted rejection), line sizes / capacities "
-        "that are no multiples, every first call repeated with the same argument objects. non-trivial = some line is reused "
+        "that are no multiples, two-component lines whose digits concatenate alike ((1,12) vs (11,2)), every first call repeated with the same argument objects. non-trivial = some line is reused "
         "(buffet/cache), some row dropped and some kept (filter), both files non-empty (combine), a reuse (nextuse)")
 
 _T = {}
@@ -416,6 +416,29 @@ def _small_widths(tier):
                                     kind="small-widths")
 
 
+# line identities with two components whose decimal digits concatenate to the same string
+COLLIDE = [(1, 12), (11, 2), (1, 11), (11, 1), (2, 10), (21, 0)]
+
+
+def _small_collide(tier):
+    """a line is (coordinate of the upper rank, position): every sequence of <= 3 accesses over lines that
+    differ as tuples but not as concatenated text, for the next-use pass and for both policies"""
+    tens = [{"name": "A", "ranks": ["M", "K"], "shape": [32, 32]}]
+    maxlen = 3 if tier == "quick" else 4
+    for ln in range(2, maxlen + 1):
+        for pts in itertools.product(COLLIDE, repeat=ln):
+            if len(set(pts)) < 2:
+                continue
+            yield {"prop": PROP, "op": "nextuse", "n": 2, "mask": [True, True], "epl": 1,
+                   "rows": [[[t, 0, c, p, p], bool(t % 2)] for t, (c, p) in enumerate(pts)]}
+            rows = [[t, 0, c, p, p] for t, (c, p) in enumerate(pts)]
+            tr = [{"tensor": "A", "rank": "K", "type": "payload", "access": "read", "header": ["M", "K"], "rows": rows}]
+            yield _case("buffet", tens, [{"tensor": "A", "rank": "K", "type": "payload", "evict_on": "root"}],
+                        tr, 32, [None], kind="small-collide")
+            yield _case("cache", tens, [{"tensor": "A", "rank": "K", "type": "payload"}],
+                        copy.deepcopy(tr), 32, [32, None], kind="small-collide")
+
+
 def _small_cache(tier):
     tens = [{"name": "B", "ranks": ["K"], "shape": [8]}]
     b = [{"tensor": "B", "rank": "K", "type": "payload"}]
@@ -582,7 +605,7 @@ def _random_traffic(rng, op, tier):
         acc = rng.choice(("read", "read", "both", "both", "write"))
         length = rng.choice((0, 1, 3, 5, 8, 12)) if tier == "quick" else rng.choice((0, 2, 6, 12, 20, 30))
         shape = t["shape"][j]
-        rows = _gen_rows(rng, n, length, rng.choice((1, 2, 3, 12)), shape + (2 if acc != "read" else 0),
+        rows = _gen_rows(rng, n, length, rng.choice((1, 2, 3, 12, 25)), shape + (2 if acc != "read" else 0),
                          rng.choice((0.0, 0.0, 0.15, 0.4)), coherent=rng.random() < 0.7)
         hdr = order[:n]
         if acc == "read":
@@ -656,7 +679,7 @@ def _random_tools(rng, tier):
         return {"prop": PROP, "op": "combine", "n": n, "reads": [r for r, x in zip(rows, w) if not x],
                 "writes": [r for r, x in zip(rows, w) if x]}
     n = rng.choice((1, 2, 3))
-    rows = _gen_rows(rng, n, rng.randrange(12), rng.choice((2, 12)), rng.choice((6, 14)), 0.2)
+    rows = _gen_rows(rng, n, rng.randrange(12), rng.choice((2, 12, 25)), rng.choice((6, 14, 25)), 0.2)
     mask = [rng.random() < 0.6 for _ in range(n - 1)] + [True]
     return {"prop": PROP, "op": "nextuse", "n": n, "rows": [[r, rng.random() < 0.4] for r in rows],
             "mask": mask, "epl": rng.choice((1, 2, 4))}
@@ -706,6 +729,7 @@ def gen(seed, tier):
     yield from _small_buffet(tier)
     yield from _small_cache(tier)
     yield from _small_widths(tier)
+    yield from _small_collide(tier)
     rng = random.Random(seed)
     nrand = 2500 if tier == "quick" else 40000
     for i in range(nrand):
